@@ -37,7 +37,13 @@ if [ "${ROUND:-1}" = "3" ] && [ $WITH = 0 ]; then # race demonstrations may need
   for k in 2 3; do go test -vet=off -count=1 -run "$RUNPAT" "$PKG" >/tmp/vs_with.log 2>&1 || { WITH=$?; break; }; done
 fi
 mv "$W/$REL" /tmp/vs_demo_hold.go
-go test -vet=off -count=1 ./seat_manager/ ./open_game_manager/ ./actor/ >/tmp/vs_tests.log 2>&1; T1=$?
+# ./actor/ has a rare baseline panic ("negative WaitGroup counter" / "send on closed channel"): a real failure
+# shows as a "--- FAIL" line; retry up to 3 times for a clean pass
+T1=1
+for try in 1 2 3; do
+  go test -vet=off -count=1 ./seat_manager/ ./open_game_manager/ ./actor/ >/tmp/vs_tests.log 2>&1 && { T1=0; break; }
+  grep -q -e '--- FAIL' /tmp/vs_tests.log && { T1=2; break; }
+done
 # the testcases package is flaky at baseline ("Fail in goroutine after <Test> has completed" panics): a real
 # failure shows as a "--- FAIL" line; retry up to 3 times for a clean pass
 T2=1
